@@ -22,6 +22,7 @@ a reorg(previous) notice of the first half of epoch e+1 handled before the last 
 -/
 import Ssv.Proofs.DutiesLiveProp
 import Ssv.Proofs.DutiesLiveAtt
+import Ssv.Model.DutiesIndices
 
 namespace Ssv.Duties
 
@@ -102,6 +103,20 @@ theorem C16_tie_callsites :
 theorem C16_tie_fingerprints :
     Gen.src_att_processFetching = "edf920f17ee85f07" ∧ Gen.src_sync_processFetching = "ae78804de626ce2c" ∧
     Gen.src_store_Add = "6c3e4595280aaa0f" ∧ Gen.src_store_CommitteeSlotDuties = "55dc819b79018e9a" := by decide
+
+/-- the index functions of the validator controller the handlers are driven with: `AllActiveIndices` walks the whole
+    shares store (`Range`) and its callback appends the index of every share that `IsAttesting(epoch)` and ALWAYS returns
+    true (no `return false`, no test of `share.Liquidated`: the walk is never cut short); `CommitteeActiveIndices` walks the
+    validators map with the same test; `IsAttesting` = metadata present ∧ (status attesting ∨ (pending-queued ∧
+    activation ≤ epoch)); running validators = non-liquidated shares of this operator (`StartValidators`) -/
+theorem C16_tie_index_functions :
+    Gen.has_ctrl_AllActiveIndices = [true, true, true, true, false, false] ∧
+    Gen.lits_ctrl_AllActiveIndices = ["u<-"] ∧
+    Gen.calls_ctrl_AllActiveIndices = ["Range", "IsAttesting"] ∧
+    Gen.has_ctrl_CommitteeActiveIndices = [true, true, true, true] ∧
+    Gen.lits_share_IsAttesting = ["&&", "||", "&&", "==", "<="] ∧
+    Gen.calls_share_IsAttesting = ["HasBeaconMetadata", "IsAttesting"] ∧
+    Gen.calls_ctrl_StartValidators = ["ByNotLiquidated", "BelongsToOperator", "setupValidators"] := by decide
 
 /-! ## at most once -/
 
@@ -318,5 +333,102 @@ example :
        .tick 32 32 (.ok [1] [⟨0, 1, 9⟩]) .fail]
     (⟨8, 4⟩ : Net).ok = true ∧ envOK none 20 evs = true ∧
     execPairs (run .sync ⟨8, 4⟩ 20 (.ok [] []) evs) = [(20, 1), (30, 1), (31, 1), (32, 1)] := by decide
+
+/-! ## the validator controller's index functions in the loop -/
+
+/-- an index is returned iff SOME share of the registry carries it and is attesting — whatever else is stored, in
+    whatever order -/
+theorem C16_index_membership (shares : List Share) (e x : Nat) :
+    (x ∈ allActive shares e ↔ ∃ s ∈ shares, s.vidx = x ∧ s.isAttesting e = true) ∧
+    (x ∈ committeeActive shares e ↔
+      ∃ s ∈ shares, s.vidx = x ∧ s.own = true ∧ s.liquidated = false ∧ s.isAttesting e = true) := by
+  constructor
+  · simp only [allActive, List.mem_map, List.mem_filter]
+    constructor
+    · rintro ⟨s, ⟨h1, h2⟩, rfl⟩; exact ⟨s, h1, rfl, h2⟩
+    · rintro ⟨s, h1, rfl, h2⟩; exact ⟨s, ⟨h1, h2⟩, rfl⟩
+  · simp only [committeeActive, Share.running, List.mem_map, List.mem_filter, Bool.and_eq_true,
+      Bool.not_eq_true']
+    constructor
+    · rintro ⟨s, ⟨h1, ⟨h2, h3⟩, h4⟩, rfl⟩; exact ⟨s, h1, rfl, h2, h3, h4⟩
+    · rintro ⟨s, h1, rfl, h2, h3, h4⟩; exact ⟨s, ⟨h1, ⟨h2, h3⟩, h4⟩, rfl⟩
+
+/-- A liquidated, inactive, foreign or metadata-less share never hides another share's index: inserting ANY share at ANY
+    position of the registry keeps every index that was returned before (for both functions, every epoch). -/
+theorem C16_share_never_hides_another (l1 l2 : List Share) (s : Share) (e x : Nat) :
+    (x ∈ allActive (l1 ++ l2) e → x ∈ allActive (l1 ++ s :: l2) e) ∧
+    (x ∈ committeeActive (l1 ++ l2) e → x ∈ committeeActive (l1 ++ s :: l2) e) := by
+  have hsub : ∀ t, t ∈ l1 ++ l2 → t ∈ l1 ++ s :: l2 := by
+    intro t ht
+    rcases List.mem_append.mp ht with h | h
+    · exact List.mem_append.mpr (Or.inl h)
+    · exact List.mem_append.mpr (Or.inr (List.mem_cons_of_mem _ h))
+  constructor
+  · intro h
+    obtain ⟨t, ht, h1, h2⟩ := (C16_index_membership _ e x).1.mp h
+    exact (C16_index_membership _ e x).1.mpr ⟨t, hsub t ht, h1, h2⟩
+  · intro h
+    obtain ⟨t, ht, h1⟩ := (C16_index_membership _ e x).2.mp h
+    exact (C16_index_membership _ e x).2.mpr ⟨t, hsub t ht, h1⟩
+
+/-- the indices the duties are dispatched for are among those they are fetched for -/
+theorem C16_committee_indices_subset_all (shares : List Share) (e x : Nat) (h : x ∈ committeeActive shares e) :
+    x ∈ allActive shares e := by
+  obtain ⟨t, ht, h1, _, _, h4⟩ := (C16_index_membership _ e x).2.mp h
+  exact (C16_index_membership _ e x).1.mpr ⟨t, ht, h1, h4⟩
+
+/-- an own, non-liquidated, attesting share gets its duty: the request contains its index and the beacon node's answer
+    for it survives `resolve` -/
+theorem C16_own_active_duty_is_fetched (k : Kind) (shares : List Share) (arg : Nat) (ds : List Duty) (d : Duty) (s : Share)
+    (hs : s ∈ shares) (hv : s.vidx = d.vidx) (ho : s.own = true) (hl : s.liquidated = false)
+    (ha : s.isAttesting arg = true) (hd : d ∈ ds) :
+    ∃ com ds', resolve k shares arg (.ok ds) = .ok com ds' ∧ d ∈ ds' ∧ d.vidx ∈ com := by
+  have hc : d.vidx ∈ committeeActive shares arg :=
+    (C16_index_membership _ arg _).2.mpr ⟨s, hs, hv, ho, hl, ha⟩
+  have hall : d.vidx ∈ allActive shares arg := C16_committee_indices_subset_all _ _ _ hc
+  cases k with
+  | att =>
+    have hne : (committeeActive shares arg).isEmpty = false := by
+      cases hcm : committeeActive shares arg with
+      | nil => rw [hcm] at hc; cases hc
+      | cons a b => rfl
+    refine ⟨_, _, by simp only [resolve, hne, Bool.false_eq_true, if_false]; rfl, ?_, hc⟩
+    exact List.mem_filter.mpr ⟨hd, by simpa using hc⟩
+  | prop =>
+    have hne : (allActive shares arg).isEmpty = false := by
+      cases hcm : allActive shares arg with
+      | nil => rw [hcm] at hall; cases hall
+      | cons a b => rfl
+    refine ⟨_, _, by simp only [resolve, hne, Bool.false_eq_true, if_false]; rfl, ?_, hc⟩
+    exact List.mem_filter.mpr ⟨hd, by simpa using hall⟩
+  | sync =>
+    have hne : (allActive shares arg).isEmpty = false := by
+      cases hcm : allActive shares arg with
+      | nil => rw [hcm] at hall; cases hall
+      | cons a b => rfl
+    refine ⟨_, _, by simp only [resolve, hne, Bool.false_eq_true, if_false]; rfl, ?_, hc⟩
+    exact List.mem_filter.mpr ⟨hd, by simpa using hall⟩
+
+/-- a run against a registry and a beacon node is a run of the handler model, so every theorem above applies to it;
+    in particular exactly-once-if-fetched (the order condition only concerns the slots of the events) -/
+theorem C16_dispatch_exactly_once_with_real_indices (k : Kind) (n : Net) (shares0 : List Share) (clock0 : Nat) (c0 : Chain)
+    (evs : List EnvEvent) (hn : n.ok = true)
+    (henv : envOK none clock0
+      (resolveEvents k n shares0 (initH k n clock0 (resolveInit k n shares0 clock0 c0)).1 evs) = true) :
+    exactlyOnceOK k n (runE k n shares0 clock0 c0 evs) = true ∧ AtMostOnce (runE k n shares0 clock0 c0 evs) ∧
+    onlyLatestOK k n (runE k n shares0 clock0 c0 evs) = true :=
+  ⟨(C16_dispatch_exactly_once_if_fetched k n clock0 _ _ hn henv).1,
+   (C16_dispatch_exactly_once_if_fetched k n clock0 _ _ hn henv).2,
+   C16_dispatch_only_latest k n clock0 _ _⟩
+
+/-- example: proposer; registry = own active 1, FOREIGN active 2, own LIQUIDATED 3 stored in between, own pending-queued 4
+    (activation epoch 2); all four have a duty at slot 45/46: 1 is dispatched, 2 and 3 are fetched but not dispatched (not
+    this operator's running validators), 4 is not yet attesting in epoch 1 -/
+example :
+    runE .prop ⟨32, 256⟩ [⟨1, true, false, .attesting⟩, ⟨3, true, true, .attesting⟩, ⟨2, false, false, .attesting⟩,
+        ⟨4, true, false, .pendingQueued 2⟩] 40 (.ok [⟨45, 1, 7⟩, ⟨45, 2, 8⟩, ⟨46, 3, 9⟩, ⟨46, 4, 10⟩])
+      [.tick 45 45 .fail .fail, .tick 46 46 .fail .fail] =
+      [.fetch 1 1 (.ok [1] [⟨45, 1, 7⟩, ⟨45, 2, 8⟩, ⟨46, 3, 9⟩]), .fetch 1 1 .fail, .execs 45 45 [⟨45, 1, 7⟩],
+       .fetch 1 1 .fail, .execs 46 46 []] := by decide
 
 end Ssv.Duties
